@@ -129,6 +129,36 @@ def legacy_bad_utf8(rng, svcs):
     return struct.pack('>HHHHHH', 9, 0, 2, 0, 0, 0) + qs[0] + qs[1]
 
 
+def raw_strings(rng, svcs):
+    """structurally valid messages whose character strings (HINFO cpu / os, TXT) and names carry arbitrary, mostly non-UTF-8 bytes:
+    as a response, or as the known-answer section of a query for a registered service"""
+    def junk(n):
+        return bytes(rng.choice([0xFF, 0xC0, 0x80, 0xE9, 0xF5, 0x41, rng.randrange(256)]) for _ in range(n))
+
+    def cstr():
+        b = junk(rng.choice([0, 1, 3, 4, 20]))
+        return bytes([len(b)]) + b
+    owner = name_bytes(rng.choice(['hp0.local.', 'x.local.']))
+    rr = []
+    for _ in range(rng.choice([1, 2])):
+        kind = rng.choice(['hinfo', 'hinfo', 'txt', 'ptr-junk-name'])
+        if kind == 'hinfo':
+            rd = cstr() + cstr()
+            rr.append(owner + struct.pack('>HHIH', 13, 0x8001, 120, len(rd)) + rd)
+        elif kind == 'txt':
+            rd = cstr() + cstr()
+            rr.append(owner + struct.pack('>HHIH', 16, 0x8001, 120, len(rd)) + rd)
+        else:
+            lab = junk(rng.choice([1, 5, 21, 22, 63]))
+            rd = bytes([len(lab)]) + lab + b'\x05local\x00'
+            rr.append(name_bytes('_u._udp.local.') + struct.pack('>HHIH', 12, 1, 4500, len(rd)) + rd)
+    if rng.random() < 0.5 or not svcs:
+        return struct.pack('>HHHHHH', 0, 0x8400, 0, len(rr), 0, 0) + b''.join(rr)
+    s = rng.choice(svcs)
+    q = name_bytes(s['type']) + struct.pack('>HH', 12, rng.choice([1, 0x8001]))
+    return struct.pack('>HHHHHH', 3, 0, 1, len(rr), 0, 0) + q + b''.join(rr)
+
+
 def oversize(rng, base):
     n = rng.choice([8966, 8967, 8967, 9000, 20000])
     return base + bytes(n - len(base)) if n > len(base) else base
@@ -140,7 +170,7 @@ def gen_stream(rng, svcs, peers):
     prev = None
     for _ in range(rng.choice([3, 6, 10, 16])):
         kind = rng.choice(['query', 'query', 'response', 'response', 'mut-q', 'mut-r', 'mut-r', 'random', 'hostile', 'legacy-utf8', 'oversize', 'repeat',
-                           'header', 'follow-up'])
+                           'header', 'follow-up', 'raw-strings'])
         if kind == 'query':
             d = valid_query(rng, svcs)
         elif kind == 'response':
@@ -161,6 +191,8 @@ def gen_stream(rng, svcs, peers):
                             rng.choice([0, 0, 1]), rng.choice([0, 0, 1]), 0)
         elif kind == 'follow-up':
             d = valid_query(rng, svcs)
+        elif kind == 'raw-strings':
+            d = raw_strings(rng, svcs)
         elif kind == 'oversize':
             d = oversize(rng, valid_query(rng, svcs) if rng.random() < 0.5 else valid_response(rng, peers))
         else:
